@@ -514,6 +514,11 @@ double Inv_Erf(double p)
 		std::cerr << "Warning in libphysica::Inv_erf(double): The argument p = " << p << " is very close to 1.0. Return 10." << std::endl;
 		return 10.0;
 	}
+	else if(fabs(p + 1.0) < 1e-16)
+	{
+		std::cerr << "Warning in libphysica::Inv_erf(double): The argument p = " << p << " is very close to -1.0. Return -10." << std::endl;
+		return -10.0;
+	}
 	else if(fabs(p) >= 1.0)
 	{
 		std::cerr << "Error in libphysica::Inv_erf(): Invalid argument |p| = |" << p << "| > 1" << std::endl;
